@@ -13,6 +13,7 @@ satisfies it (`ref_oracle_ok`), and the native driver checks it on every LP answ
 
 * `solve_mip_sound`            every answer of the modelled `solve()` (any fuel) is the true one;
 * `solve_mip_node_sound`       the invariant of the recursion at an arbitrary node / incumbent;
+* `solve_mip_oracle_independent` status and value do not depend on the LP vertex / pricing / incremental re-solve;
 * `unbounded_rule_valid`       the rule by which the code says UNBOUNDED ("the relaxation of some node is
                                unbounded and some feasible integral point is known") is valid for
                                rational data — no extra condition has to be checked by the code;
@@ -181,6 +182,38 @@ example : solveTop refOracle 3 ⟨1, [⟨[-2], 3, false⟩, ⟨[2], -1, false⟩
     = some (.optimized 1 ⟨[1], 1⟩) := by decide +kernel
 -- 2x = 1: both children unfeasible
 example : solveTop refOracle 3 ⟨1, [⟨[2], -1, true⟩], [0], ⟨[1], 0⟩, true⟩ = some .unfeasible := by decide +kernel
+
+/-- the claim an outcome of `solve()` makes -/
+def outcomeAnswer : Outcome → Answer
+  | .unfeasible => .unfeasible
+  | .unbounded _ => .unbounded
+  | .optimized v _ => .optimum v
+
+/-- **The answer does not depend on the LP oracle** — on which optimal vertex the simplex stops at, hence on
+    the pricing rule (textbook, steepest edge exact or float), on degenerate ties, and on whether a
+    node's LP was solved incrementally from the parent's basis or from scratch: two runs of the
+    modelled `solve()` with any two correct oracles and any fuels report the same status and the same
+    optimal value (the points may differ). -/
+theorem solve_mip_oracle_independent (lp₁ lp₂ : Oracle) (h₁ : OracleOK lp₁) (h₂ : OracleOK lp₂) (N : Node)
+    (hwf : N.toProblem.WF) (f₁ f₂ : Nat) (o₁ o₂ : Outcome)
+    (e₁ : solveTop lp₁ f₁ N = some o₁) (e₂ : solveTop lp₂ f₂ N = some o₂) : outcomeAnswer o₁ = outcomeAnswer o₂ := by
+  have a₁ := solve_mip_sound lp₁ h₁ N hwf f₁ o₁ e₁
+  have a₂ := solve_mip_sound lp₂ h₂ N hwf f₂ o₂ e₂
+  apply isAnswer_unique N.toProblem
+  · cases o₁ <;> simp only [outcomeAnswer, IsAnswer] at a₁ ⊢
+    · exact a₁
+    · exact a₁.1
+    · exact a₁.1
+  · cases o₂ <;> simp only [outcomeAnswer, IsAnswer] at a₂ ⊢
+    · exact a₂
+    · exact a₂.1
+    · exact a₂.1
+
+-- the same problem, the oracle of the reference and an oracle that reports the other optimal vertex of
+-- a degenerate LP would agree in value; here: the reference oracle at two different fuels
+example : (solveTop refOracle 3 ⟨1, [⟨[-2], 3, false⟩, ⟨[2], -1, false⟩], [0], ⟨[1], 0⟩, true⟩).map outcomeAnswer
+    = (solveTop refOracle 5 ⟨1, [⟨[-2], 3, false⟩, ⟨[2], -1, false⟩], [0], ⟨[1], 0⟩, true⟩).map outcomeAnswer := by
+  decide +kernel
 
 /-- **The code's UNBOUNDED rule is valid**, whatever the ranges of the integer variables: if the
     relaxation of the (root) problem has points of arbitrarily good value and one feasible integral
